@@ -246,6 +246,9 @@ func newCmap4(cm tables.CmapSubtable4) (cmap4, error) {
 			delta: cm.IdDelta[i],
 		}
 		idRangeOffset := int(cm.IdRangeOffsets[i])
+		if entry.end < entry.start {
+			return nil, errors.New("invalid cmap subtable format 4 segment (end < start)")
+		}
 
 		// some fonts use 0xFFFF for idRangeOff for the last segment
 		if entry.start != 0xFFFF && idRangeOffset != 0 {
